@@ -84,13 +84,15 @@ class Ctx:
         return self._sat(cond)
 
 
-def explore(fn, solver=None, assumptions=(), max_paths=20000, stats=None):
-    """returns list of (pc, result). Raises PathBudget if more than max_paths paths."""
+def explore(fn, solver=None, assumptions=(), max_paths=20000, stats=None, deadline=None):
+    """returns list of (pc, result). Raises PathBudget if more than max_paths paths (or, with a deadline, when time.time() passes it)."""
     solver = solver or z3.Solver()
     out = []
     work = [[]]
     stats = stats if stats is not None else {}
     while work:
+        if deadline is not None and time.time() > deadline:
+            raise PathBudget('time budget')
         prefix = work.pop()
         ctx = Ctx(solver, assumptions, stats)
         ctx.prefix = prefix
